@@ -75,7 +75,11 @@ def _generate_operator(ns, node):
             if s1 and not s2:
                 r2 = to_signed(r2)
         r = f"{r1} {operator} {r2}"
-        s = s1 or s2
+        # Comparisons are 1-bit unsigned.
+        if operator in ["<", "<=", "==", "!=", ">", ">="]:
+            s = False
+        else:
+            s = s1 or s2
 
     # Ternary Operator.
     if arity == OperatorType.TERNARY:
